@@ -83,7 +83,7 @@ MUTANTS = [
     # ------------------------------------------------------------------ revert of repaired defect F60 (C06)
     ("c06_alap_milestone_slot_start", "C06", [(TS, "                    date = self.backwardBound or self.project.idxToDate(slot_idx)", "                    date = self.project.idxToDate(slot_idx)")]),
     # ------------------------------------------------------------------ revert of repaired defect F59 (C19)
-    ("c19_stdin_read_as_text", "C19", [(PL, "            stdin_bytes = sys.stdin.buffer.read()\n            try:\n                stdin_content = stdin_bytes.decode(\"utf-8\")\n            except UnicodeDecodeError as e:\n                raise FileNotFoundError(f\"Cannot read stdin: {e}\") from e\n",
+    ("c19_stdin_read_as_text", "C19", [(PL, "            stdin_bytes = sys.stdin.buffer.read()\n            try:\n                stdin_bytes.decode(\"utf-8\")\n            except UnicodeDecodeError as e:\n                raise FileNotFoundError(f\"Cannot read stdin: {e}\") from e\n",
                                          "            stdin_content = sys.stdin.read()\n            stdin_bytes = stdin_content.encode(\"utf-8\", \"surrogateescape\")\n")]),
     # ------------------------------------------------------------------ revert of repaired defect F58 (C18)
     ("c18_cost_ignores_allocation_options", "C18", [(TS, "                candidates = list(res.get(\"resources\", [])) + list(res.get(\"options\", {}).get(\"alternative\", []))", "                candidates = [res]")]),
@@ -262,7 +262,7 @@ MUTANTS = [
                                         (SB, "        start = -1  # -1 = no run open (slot 0 is a valid run start)", "        start = 0"),
                                         (SB, "                    duration = 0\n                    start = -1\n", "                    duration = 0\n                    start = 0\n")]),
     ("c17_no_reject_out_of_range", "C17", [(SB, "        elif idx < 0 or idx >= self.size:\n            raise IndexError(f\"Index {idx} is out of scoreboard range ({self.size - 1})\")\n\n        return self.startDate", "        return self.startDate")]),
-    ("c17_pyx_idx_to_date_resolution", "C17", [(SP, "    seconds = idx * resolution\n    return start_date + timedelta(seconds=seconds)", "    seconds = (idx + 1) * resolution\n    return start_date + timedelta(seconds=seconds)")]),
+    ("c17_pyx_idx_to_date_resolution", "C17", [(SP, "    seconds = <long long>idx * resolution\n    return start_date + timedelta(seconds=seconds)", "    seconds = <long long>(idx + 1) * resolution\n    return start_date + timedelta(seconds=seconds)")]),
     ("c17_clip_wrong_bound", "C17", [(SB, "                        if current_idx > eIdx:\n                            current_idx = eIdx", "                        if current_idx > eIdx:\n                            current_idx = sIdx")]),
     # ------------------------------------------------------------------ C18
     ("c18_csv_other_field", "C18", [(TR, "        for line in self.body_lines:\n            rows.append([cell.text for cell in line.cells])", "        for line in self.body_lines:\n            rows.append([cell.tooltip or cell.text for cell in line.cells])")]),
